@@ -273,6 +273,94 @@ fn no_params(rep: &mut Report) {
     }
 }
 
+/// Error envelopes as a caller sees them: every member order (with and without insignificant white space, with
+/// an unknown extra member in every position) through `receive_reply`, `call_method`, a chain's reply stream
+/// and a generated proxy method must give the same error as decoding the object directly.
+fn error_orders(rep: &mut Report) {
+    use futures_util::StreamExt;
+    #[derive(Debug, Clone, PartialEq)]
+    enum Want {
+        Method(ED),
+        Service(varlink_service::Error),
+    }
+    let cases: Vec<(Vec<(&str, String)>, Want)> = vec![
+        (vec![("error", "\"d.WithFields\"".into()), ("parameters", "{\"a\":-7}".into())], Want::Method(ED::WithFields { a: -7 })),
+        (vec![("error", "\"d.Plain\"".into()), ("parameters", "{}".into())], Want::Method(ED::Plain)),
+        (vec![("error", "\"d.Plain\"".into()), ("parameters", "null".into())], Want::Method(ED::Plain)),
+        (vec![("error", "\"org.varlink.service.InterfaceNotFound\"".into()), ("parameters", "{\"interface\":\"x.y\"}".into())], Want::Service(varlink_service::Error::InterfaceNotFound { interface: "x.y".try_into().unwrap() })),
+        (vec![("error", "\"org.varlink.service.MethodNotFound\"".into()), ("parameters", "{\"method\":\"x.y.Z\"}".into())], Want::Service(varlink_service::Error::MethodNotFound { method: "x.y.Z".try_into().unwrap() })),
+        (vec![("error", "\"org.varlink.service.InvalidParameter\"".into()), ("parameters", "{\"parameter\":\"p\"}".into())], Want::Service(varlink_service::Error::InvalidParameter { parameter: "p".try_into().unwrap() })),
+        (vec![("error", "\"org.varlink.service.PermissionDenied\"".into()), ("parameters", "{}".into())], Want::Service(varlink_service::Error::PermissionDenied)),
+        (vec![("error", "\"org.varlink.service.ExpectedMore\"".into()), ("parameters", "null".into())], Want::Service(varlink_service::Error::ExpectedMore)),
+    ];
+    for (members, want) in cases {
+        let mut variants: Vec<Vec<(&str, String)>> = vec![members.clone()];
+        for pos in 0..=members.len() {
+            let mut m = members.clone();
+            m.insert(pos, ("x-extra", "[1,{\"error\":\"no\"}]".into()));
+            variants.push(m);
+        }
+        for base in variants {
+            let mut perms: Vec<Vec<(&str, String)>> = Vec::new();
+            permutations(&base, &mut |p| perms.push(p.to_vec()));
+            for p in perms {
+                for ws in [false, true] {
+                    let body: Vec<String> = p.iter().map(|(k, v)| if ws { format!(" \"{k}\" :\t{v} ") } else { format!("\"{k}\":{v}") }).collect();
+                    let d = format!("{{{}}}", body.join(","));
+                    let order: Vec<&str> = p.iter().map(|(k, _)| *k).collect();
+                    for path in ["receive_reply", "call_method", "chain", "proxy"] {
+                        rep.eval(vnet::fnv(format!("eo{d}{path}").as_bytes()));
+                        let mut f = d.clone().into_bytes();
+                        f.push(0);
+                        let wire = new_wire(0);
+                        wire.borrow_mut().push(Rx::Bytes(f));
+                        let mut conn = Connection::new(VSocket(wire));
+                        let got: Result<Want, String> = match path {
+                            "receive_reply" => match vnet::block_on(conn.receive_reply::<serde::de::IgnoredAny, ED>(), 8) {
+                                Some(Ok(Err(e))) => Ok(Want::Method(e)),
+                                Some(Err(zlink_core::Error::VarlinkService(e))) => Ok(Want::Service(e)),
+                                other => Err(format!("{other:?}")),
+                            },
+                            "call_method" => match vnet::block_on(conn.call_method::<_, serde::de::IgnoredAny, ED>(&Call::new(MA::Unit)), 8) {
+                                Some(Ok(Err(e))) => Ok(Want::Method(e)),
+                                Some(Err(zlink_core::Error::VarlinkService(e))) => Ok(Want::Service(e)),
+                                other => Err(format!("{other:?}")),
+                            },
+                            "chain" => {
+                                let chain = conn.chain_call::<_, serde::de::IgnoredAny, ED>(&Call::new(MA::Unit)).expect("enqueue");
+                                match vnet::block_on(chain.send(), 8) {
+                                    Some(Ok(st)) => {
+                                        let mut st = core::pin::pin!(st);
+                                        match vnet::block_on(st.next(), 8) {
+                                            Some(Some(Ok(Err(e)))) => Ok(Want::Method(e)),
+                                            Some(Some(Err(zlink_core::Error::VarlinkService(e)))) => Ok(Want::Service(e)),
+                                            other => Err(format!("{other:?}")),
+                                        }
+                                    }
+                                    other => Err(format!("send: {:?}", other.map(|r| r.map(|_| ())))),
+                                }
+                            }
+                            _ => match vnet::block_on(conn.nothing(), 8) {
+                                Some(Ok(Err(e))) => Ok(Want::Method(e)),
+                                Some(Err(zlink_core::Error::VarlinkService(e))) => Ok(Want::Service(e)),
+                                other => Err(format!("{other:?}")),
+                            },
+                        };
+                        match got {
+                            Ok(g) if g == want => rep.count("error_envelopes_recognised_in_every_member_order"),
+                            other => rep.violation(
+                                &format!("C05/error-envelope-not-recognised-in-this-member-order:{path}"),
+                                format!("{d} (members {order:?}) through {path}: {other:?}, expected {want:?}"),
+                                json!({"monitor": "c05", "part": "error-orders", "doc": d, "path": path}),
+                            ),
+                        }
+                    }
+                }
+            }
+        }
+    }
+}
+
 /// Reply<T>: `parameters` and `continues` only when present; decodes from any member order; round-trips.
 fn reply_envelope(rep: &mut Report, rng: &mut Rng, n: u64) {
     #[derive(Debug, Serialize, Deserialize, PartialEq, Clone)]
@@ -356,6 +444,7 @@ pub fn run(cfg: &Cfg) -> Report {
             encode_case(&mut rep, "service::GetInterfaceDescription", varlink_service::Method::GetInterfaceDescription { interface: "org.example.x" }, set);
         }
         no_params(&mut rep);
+        error_orders(&mut rep);
     }
     // (b) decode matrix, sharded by method type
     let types: Vec<(&str, Vec<(&str, &str)>)> = vec![
